@@ -114,6 +114,22 @@ theorem c17_table_fp_row (p : Bytes) :
   rw [h1] at h
   simp [h2] at h
 
+/-- (C17-N1) a double compared with C `!=` differs from itself when it is a NaN: the model-level counter-example to
+    "a simulation always equals its own copy" wherever reb_particle_diff uses `!=` (replayed on the real code by
+    the search: a particle flagged y = NaN, REBOUND's own marker for removed particles) -/
+theorem c17_nan_unequal_to_itself (b : Bytes) (h : isNaN64 (leNat b) = true) : f64Ne b b = true :=
+  f64Ne_self_nan b h
+
+private def nanParticle : Bytes :=
+  [0, 0, 0, 0, 0, 0, 0xf8, 0x7f] ++ List.replicate 120 0
+private def neSpec : List CmpSpec := [⟨128, [⟨.f64, 0, 8⟩, ⟨.f64, 8, 8⟩, ⟨.u32, 104, 4⟩]⟩]
+private def neTable : List Desc := [⟨85, .pointer, 19, 6, 128, false, 1⟩, ⟨9999, .fieldEnd, 0, 0, 0, false, 0⟩]
+
+/-- ... so a whole stream holding one particle with x = NaN is reported different from itself under a compare spec
+    that uses `!=` for doubles (the spec of the unchanged tree) -/
+example : compare special neSpec neTable [(85, nanParticle), (9999, [])] [(85, nanParticle), (9999, [])] = true := by
+  decide +kernel
+
 /-- the member-wise compare spec of every row that has one covers exactly the non-pointer members of the row's
     element struct, and all compared members lie clear of the pointer members -/
 theorem c17_table_spec_covers :
